@@ -41,6 +41,17 @@ theorem nodup_addAttribute (l : List Att) (n : QN) (v : String) (h : (l.map (·.
     intro e
     exact hn (e ▸ ha)
 
+theorem nodup_dropSameExpanded (s : St) (n : QN) (h : (s.pendAtts.map (·.name)).Nodup) :
+    ((s.dropSameExpanded n).map (·.name)).Nodup := by
+  unfold St.dropSameExpanded
+  split
+  · exact List.Nodup.sublist (List.Sublist.map _ List.filter_sublist) h
+  · exact h
+
+theorem nodup_addAtt (s : St) (n : QN) (v : String) (h : (s.pendAtts.map (·.name)).Nodup) :
+    ((s.addAtt n v).pendAtts.map (·.name)).Nodup :=
+  nodup_addAttribute _ _ _ (nodup_dropSameExpanded s n h)
+
 /-! ### namespace stack -/
 
 theorem Frame.nsForPrefix_cons_self (f : Frame) (p u : String) :
@@ -130,7 +141,8 @@ theorem St.nodup_addResultAttribute (s : St) (n : QN) (v : String) (fc : Bool)
   repeat' split
   all_goals first
     | exact h
-    | exact nodup_addAttribute _ _ _ h
+    | exact nodup_addAtt _ _ _ h
+    | exact nodup_addAtt (s.addDecl _ _) _ _ h
 
 /-! ### invented prefixes -/
 
